@@ -153,6 +153,7 @@ class Tally:
         self.known: Dict[str, Dict[str, Any]] = {}
         self.samples: List[Any] = []
         self.extra: Dict[str, Any] = {}
+        self.maxima: Dict[str, Any] = {}
         self.frozen = False          # set after the first failure: shrinking runs are not coverage
         self._cur_digest = None
         self._cur_case = None
@@ -208,6 +209,11 @@ class Tally:
         if not self.frozen:
             self.extra[key] = self.extra.get(key, 0) + n
 
+    def max(self, key: str, value):
+        """Running maximum (merged across children by max)."""
+        if not self.frozen:
+            self.maxima[key] = max(self.maxima.get(key, value), value)
+
     def to_json(self):
         return {
             "evaluations": self.evaluations,
@@ -217,6 +223,7 @@ class Tally:
             "known": self.known,
             "samples": self.samples,
             "extra": self.extra,
+            "maxima": self.maxima,
         }
 
 
